@@ -139,10 +139,13 @@ void c14::register_all()
         reg_binary<AllY<CmpLessEqual<T, U>>>(false, 3, "all-pairs-16bit");
         reg_binary<AllY<CmpGreaterEqual<T, U>>>(false, 3, "all-pairs-16bit");
     };
-    bulk(short{}, short{});
     bulk(short{}, static_cast<unsigned short>(0));
     bulk(static_cast<unsigned short>(0), short{});
-    bulk(static_cast<unsigned short>(0), static_cast<unsigned short>(0));
+    // same signedness: the other four are thin wrappers of these two
+    reg_binary<AllY<CmpEqual<short, short>>>(false, 3, "all-pairs-16bit");
+    reg_binary<AllY<CmpLess<short, short>>>(false, 3, "all-pairs-16bit");
+    reg_binary<AllY<CmpEqual<unsigned short, unsigned short>>>(false, 3, "all-pairs-16bit");
+    reg_binary<AllY<CmpLess<unsigned short, unsigned short>>>(false, 3, "all-pairs-16bit");
 #elif C14_ROWS == 1
     reg_row<int>();
     reg_row<long>();
